@@ -219,6 +219,25 @@ def run_interpolators(ctx):
                                     break
                     except Exception as e:
                         ctx.violation(comp, cfgb, 'mesh-raises:' + type(e).__name__, message=str(e)[:200])
+                    # mesh grids with vectors of different lengths, incl. a single point in one position (first, middle, last)
+                    if nd >= 2:
+                        ctx.ev('conventions')
+                        for pos in range(nd):
+                            lens = [1 if a == pos else 2 + a for a in range(nd)]
+                            axes_ = [np.sort(rng.uniform(cv[0], cv[-1], size=k_)) for cv, k_ in zip(cvs, lens)]
+                            try:
+                                vm = np.asarray(interp(sparse_meshgrid(*axes_)))
+                                if vm.shape != tuple(lens):
+                                    ctx.violation(comp, cfgb, 'mesh-shape', got=vm.shape, want=tuple(lens))
+                                    continue
+                                for ix in itertools.product(*[range(k_) for k_ in lens]):
+                                    p = [axes_[a][ix[a]] for a in range(nd)]
+                                    v = interp(np.array(p))
+                                    if abs(vm[ix] - v) > 1e-13 * max(1.0, abs(v)):
+                                        ctx.violation(comp, cfgb, 'mesh!=single', point=p, got=vm[ix], ref=v)
+                                        break
+                            except Exception as e:
+                                ctx.violation(comp, cfgb, 'mesh-raises:' + type(e).__name__, message=str(e)[:200], vector_lengths=lens)
                     # affine exactness (linear in every axis)
                     if all(s == 'linear' for s in schemes) and dt != 'float32':
                         ctx.ev('exactness')
